@@ -82,7 +82,7 @@ def run(P, R, tier):
     R.check(not any(any("sum_px" in x for x in a) for s, a in ta), "POL.score-a", KEY, "model factor free of test statistics", "", "test statistics appear in the model factor")
     # ---- the score is bilinear: only linear array operations between the inputs and the result ------------------
     LINEAR_CALLS = {"array", "asarray", "asanyarray", "ascontiguousarray", "transpose", "tensordot", "dot", "einsum", "matmul", "reshape", "swapaxes", "moveaxis", "sum",
-                    "stack", "vstack", "hstack", "concatenate", "expand_dims", "squeeze", "atleast_2d", "atleast_3d", "copy", "astype", "abs", "where", "isinstance", "hasattr", "len", "float", "multiply", "subtract", "add", "divide", "true_divide", "ValueError"}
+                    "stack", "vstack", "hstack", "concatenate", "expand_dims", "squeeze", "atleast_2d", "atleast_3d", "copy", "astype", "abs", "where", "isinstance", "hasattr", "len", "float", "list", "tuple", "logical_not", "moveaxis", "newaxis", "multiply", "subtract", "add", "divide", "true_divide", "ValueError"}
     for r in rets:
         rc = cone(du, r.value, r, interproc=False)
         for d in rc.defs:
@@ -112,45 +112,80 @@ def run(P, R, tier):
                     R.violation("LINEAR.ops", KEY, src(x)[:60], f"`{fn}` is applied to a value the score is computed from; the score must be a bilinear form of the model offset and the centred statistics (only reshaping, sums and products are linear)", x.lineno)
         R.ok("LINEAR.ops", KEY, f"{n_calls} calls in the score's cone are linear array operations", "")
     # ---- frame-length normalisation: guarded division by T --------------------------------------
+    def resolve(e, st, depth=0):
+        """Follow a name to its single defining expression (named intermediate steps are the same computation)."""
+        while isinstance(e, ast.Name) and depth < 6:
+            rd = du.reaching(st, e.id)
+            if len(rd) != 1 or rd[0].how != "assign" or rd[0].value is None:
+                break
+            e, st, depth = rd[0].value, rd[0].stmt, depth + 1
+        return e, st
+
+    def small_arm(cond, st):
+        """Which arm (0 = x, 1 = y) of np.where(cond, x, y) is taken for statistics without frames, or None."""
+        cond, st = resolve(cond, st)
+        flip = False
+        while True:
+            if isinstance(cond, ast.UnaryOp) and isinstance(cond.op, (ast.Not, ast.Invert)):
+                cond, flip = cond.operand, not flip
+            elif isinstance(cond, ast.Call) and src(cond.func).split(".")[-1] == "logical_not" and cond.args:
+                cond, flip = cond.args[0], not flip
+            else:
+                break
+            cond, st = resolve(cond, st)
+        if not (isinstance(cond, ast.Compare) and len(cond.ops) == 1):
+            return None
+        cc = cone(du, cond, st, interproc=False)
+        if not any(a.endswith(".t") for a in cc.attrs):
+            return None
+        op = cond.ops[0]
+        # |T| <= eps  (or eps >= |T|): true for empty statistics
+        left_is_t = any(a.endswith(".t") for a in cone(du, cond.left, st, interproc=False).attrs)
+        if isinstance(op, (ast.LtE, ast.Lt, ast.Eq)):
+            arm = 0 if left_is_t else 1
+        elif isinstance(op, (ast.Gt, ast.GtE, ast.NotEq)):
+            arm = 1 if left_is_t else 0
+        else:
+            return None
+        if isinstance(op, (ast.Eq, ast.NotEq)):
+            arm = 0 if isinstance(op, ast.Eq) else 1
+        return (1 - arm) if flip else arm
+
     divs = []
     for n in walk_no_nested(f.node):
+        den = None
         if isinstance(n, ast.BinOp) and isinstance(n.op, ast.Div):
-            c = cone(du, n.right, du.stmt_of(n), interproc=False)
+            den = n.right
+        elif isinstance(n, ast.Call) and src(n.func).split(".")[-1] in ("divide", "true_divide") and len(n.args) >= 2:
+            den = n.args[1]
+        elif isinstance(n, ast.AugAssign) and isinstance(n.op, ast.Div):
+            den = n.value
+        if den is not None:
+            c = cone(du, den, du.stmt_of(n), interproc=False)
             if any(a.endswith(".t") for a in c.attrs):
-                divs.append(n)
-        if isinstance(n, ast.AugAssign) and isinstance(n.op, ast.Div):
-            c = cone(du, n.value, n, interproc=False)
-            if any(a.endswith(".t") for a in c.attrs):
-                divs.append(n)
+                divs.append((n, den))
     if not divs:
         R.violation("GUARD.frames", KEY, "division by the number of frames", "frame_length_normalization no longer divides by the number of frames T")
-    for d in divs:
+    wheres = [c_ for c_ in walk_no_nested(f.node) if isinstance(c_, ast.Call) and src(c_.func).split(".")[-1] == "where" and len(c_.args) == 3]
+    for d, den in divs:
         st = du.stmt_of(d)
         g = guards_of(st)
         under_flag = any(isinstance(t, ast.Name) and t.id == fln and pol_ for t, pol_ in g) or any(src(t) == fln and pol_ for t, pol_ in g)
         R.check(under_flag, "GUARD.frames-flag", KEY, src(d)[:50], "only under frame_length_normalization", "the score is divided by the frame count even when frame_length_normalization is off (or never when on)", d.lineno)
-        # masked by np.where(|t| <= eps, 0, <div>)
-        par = getattr(d, "_parent", None)
+        # the quotient is only used as the arm of np.where(<no frames>, 0, .) that is taken when there *are* frames
         ok = False
-        while par is not None and not isinstance(par, ast.stmt):
-            if isinstance(par, ast.Call) and src(par.func).split(".")[-1] == "where" and len(par.args) == 3:
-                cond, sel, other = par.args
-                in_other = any(x is d for x in ast.walk(other))
-                in_sel = any(x is d for x in ast.walk(sel))
-                cc = cone(du, cond, st, interproc=False)
-                on_t = any(a.endswith(".t") for a in cc.attrs)
-                cmp_ok = isinstance(cond, ast.Compare) and len(cond.ops) == 1
-                if cmp_ok and on_t:
-                    op = cond.ops[0]
-                    small_when_true = isinstance(op, (ast.LtE, ast.Lt, ast.Eq))
-                    if small_when_true and in_other and const_value(sel) == 0:
-                        ok = True
-                    if isinstance(op, (ast.Gt, ast.GtE, ast.NotEq)) and in_sel and const_value(other) == 0:
-                        ok = True
-            par = getattr(par, "_parent", None)
+        for w in wheres:
+            wst = du.stmt_of(w)
+            sm = small_arm(w.args[0], wst)
+            if sm is None:
+                continue
+            zero_arm, val_arm = w.args[1 + sm], w.args[2 - sm]
+            vc = cone(du, val_arm, wst, interproc=False)
+            if any(x is d for x in vc.nodes) and const_value(zero_arm) in (0, 0.0):
+                ok = True
         R.check(ok, "GUARD.frames-zero", KEY, src(d)[:50], "masked by np.where(|T| <= eps, 0, .)", "division by the frame count is not masked for zero-frame statistics: 0/0 = NaN scores", d.lineno)
         # normalising by T, not N
-        c = cone(du, d.right if isinstance(d, ast.BinOp) else d.value, st, interproc=False)
+        c = cone(du, den, st, interproc=False)
         by_n = any(a.endswith(".n") for a in c.attrs)
         R.check(not by_n, "GUARD.frames-t", KEY, f"denominator of {src(d)[:40]}", "number of frames T", "normalised by the component counts N instead of the number of frames T", d.lineno)
     # ---- MAP -> prior unwrapping dominates the reads ----------------------------------------------
@@ -177,7 +212,11 @@ def run(P, R, tier):
         for n in walk_no_nested(f.node):
             if id(n) not in used:
                 continue  # a read that does not reach the score is irrelevant
-            if isinstance(n, ast.Attribute) and isinstance(n.value, ast.Name) and n.value.id == ubm and n.attr in ("means", "variances"):
+            is_read = isinstance(n, ast.Attribute) and isinstance(n.value, ast.Name) and n.value.id == ubm and n.attr in ("means", "variances")
+            # handing the UBM to a helper of the package that reads its parameters is a read at that point
+            if isinstance(n, ast.Call) and any(isinstance(a_, ast.Name) and a_.id == ubm for a_ in list(n.args) + [k_.value for k_ in n.keywords]) and any(t_[0] == "repo" for t_ in P.resolve_callee(n.func, f)):
+                is_read = True
+            if is_read:
                 st = du.stmt_of(n)
                 nreads += 1
                 ok = st is not unwrap and du.cfg.dominates(unwrap, st) and not du.cfg.reach_avoiding(st, unwrap)
@@ -186,7 +225,7 @@ def run(P, R, tier):
     # ---- dependence on every input -----------------------------------------------------------------
     allc = None
     for r in rets:
-        allc = cone(du, r.value, r, interproc=False)
+        allc = cone(du, r.value, r, interproc=True)  # through helpers of the package that compute the two factors
         for prm in (models, ubm, stats, offs):
             R.check(prm in allc.params, "DEP.score", KEY, f"score depends on {prm}", "", f"the score does not depend on {prm}")
         for a in ("sum_px", "n", "means", "variances"):
